@@ -120,6 +120,9 @@ class Real:
         self.modules = {}
         self.metas = {}
         self.savers = {}
+        self.uds = {}      # caller-owned unitary dictionaries (the SAME object may be handed to several constructors)
+        self.ud_snaps = {}  # udslot -> deep copy taken when the caller created it
+        self.last_ref = None  # reference weights of the last initialising op: [[tensor per weight matrix] per network]
         self.keep = []  # keeps every tensor ever observed alive, so that data_ptr() values are never reused
         self.events = []
 
@@ -182,11 +185,54 @@ class Real:
     def all_tokens(self, net):
         return [self.tok.tensor(p) for _, p in net.named_parameters()]
 
+    # ------------------------------------------------------------ independent reference for "random weights"
+    def ref_draws(self, rng_state, nets):
+        """what `initialize_parameters` is documented to produce, recomputed independently of the implementation:
+        for every network in order, every weight matrix in order (W, then U) is N(0,1)/sqrt(num_visible) drawn from
+        torch's generator as it was BEFORE the operation (`rng_state`), or all zeros (no draw) with zero_weights=True.
+        nets: [(zero_weights, [(rows, cols), ...]), ...]  ->  (tensors, tokens) with the same nesting"""
+        g = torch.Generator()
+        g.set_state(rng_state)
+        tens, toks = [], []
+        for zw, mats in nets:
+            tn, tk = [], []
+            for r, c in mats:
+                if zw:
+                    t = torch.zeros(r, c, dtype=torch.double)
+                else:
+                    t = torch.randn(r, c, generator=g, dtype=torch.double) / np.sqrt(c)
+                tn.append(t)
+                tk.append(self.tok.tensor(t))
+            tens.append(tn)
+            toks.append(tk)
+        self.last_ref = tens
+        return toks
+
+    def changed_uds(self):
+        """caller-owned unitary dictionaries whose keys or tensor bytes differ from what the caller put in"""
+        return [s for s, ud in sorted(self.uds.items())
+                if not (list(ud.keys()) == list(self.ud_snaps[s].keys()) and all(deep_equal(ud[k], self.ud_snaps[s][k]) for k in ud))]
+
+    @staticmethod
+    def weight_shapes(netkind, nv, nh, na):
+        """shapes of the weight matrices the property prescribes for the requested sizes (num_hidden: None -> nv, and for a
+        BinaryRBM also 0 -> nv; num_aux: None -> nv)"""
+        if netkind == "purif":
+            return [(nv if nh is None else nh, nv), (nv if na is None else na, nv)]
+        return [(nh if nh else nv, nv)]
+
+    @staticmethod
+    def net_weight_shapes(net):
+        return [tuple(p.shape) for k, p in net.named_parameters() if k.startswith("weights")]
+
     # ------------------------------------------------------------ helpers
     def make_ud(self, spec):
         """spec: None | "empty" | list of extra names -> (python object, model entries)"""
         if spec is None:
             return None, None
+        if isinstance(spec, dict):  # {"ref": udslot}: the caller's dict object itself (shared between constructors)
+            ud = self.uds[spec["ref"]]
+            return ud, [[k, self.tok.tensor(v)] for k, v in ud.items()]
         if spec == "empty":
             return {}, []
         extra = {}
@@ -236,16 +282,40 @@ class Real:
                     kw["num_aux"] = op["na"]
                 if op["kind"] != "pos":
                     kw["unitary_dict"] = ud
-                st = KINDS[op["kind"]](**kw)
-                self.models[op["slot"]] = st
-                m["rand"] = [self.weights_tokens(getattr(st, n)) for n in st.networks]
+                rs = torch.get_rng_state()
+                m["rand"] = [[] for _ in NETS[op["kind"]]]
+                try:
+                    st = KINDS[op["kind"]](**kw)
+                    self.models[op["slot"]] = st
+                finally:
+                    ws = self.weight_shapes(NETKIND[op["kind"]], op["nv"], op["nh"], op["na"])
+                    m["rand"] = self.ref_draws(rs, [(False, ws) for _ in NETS[op["kind"]]])
+            elif t == "mkUD":
+                ud, ents = self.make_ud(op["names"] if op["names"] else "empty")
+                self.uds[op["udslot"]] = ud
+                self.ud_snaps[op["udslot"]] = {k: v.detach().clone() for k, v in ud.items()}
+                m = None  # the caller's dict object is not part of the model's world (a state holds its dictionary by value)
             elif t == "mkModule":
+                zw = bool(op.get("zw", False))
+                rs = torch.get_rng_state()
+                kw = {"gpu": False}
+                if "zw" in op:
+                    kw["zero_weights"] = zw
                 if op["k"] == "binary":
-                    net = BinaryRBM(op["nv"], op["nh"], gpu=False)
+                    net = BinaryRBM(op["nv"], op["nh"], **kw)
                 else:
-                    net = PurificationRBM(op["nv"], op["nh"], op["na"], gpu=False)
+                    net = PurificationRBM(op["nv"], op["nh"], op["na"], **kw)
                 self.modules[op["mslot"]] = net
-                m["rand"] = self.weights_tokens(net)
+                m["rand"] = self.ref_draws(rs, [(False, self.weight_shapes(op["k"], op["nv"], op["nh"], op["na"]))])[0]
+            elif t == "initModule":
+                net = self.modules[op["mslot"]]
+                rs = torch.get_rng_state()
+                ws = self.net_weight_shapes(net)  # the property: shapes unchanged
+                m["rand"] = self.ref_draws(rs, [(False, ws)])[0]
+                if op.get("zw") is None:
+                    net.initialize_parameters()
+                else:
+                    net.initialize_parameters(zero_weights=bool(op["zw"]))
             elif t == "constructFrom":
                 ud, ents = self.make_ud(op.get("ud"))
                 m["ud"] = ents
@@ -279,9 +349,9 @@ class Real:
                     m["toks"] = [self.all_tokens(getattr(st, n)) for n in st.networks]
             elif t == "reinit":
                 st = self.models[op["slot"]]
-                m["rand"] = [[] for _ in st.networks]
+                rs = torch.get_rng_state()
+                m["rand"] = self.ref_draws(rs, [(False, self.net_weight_shapes(getattr(st, n))) for n in st.networks])
                 st.reinitialize_parameters()
-                m["rand"] = [self.weights_tokens(getattr(st, n)) for n in st.networks]
             elif t == "addUnitary":
                 st = self.models[op["slot"]]
                 u = torch.randn(2, 2, 2, generator=self.gen, dtype=torch.double)
@@ -406,7 +476,9 @@ def admissible(real, op):
     t = op["t"]
     if t in ("write", "train", "reinit", "addUnitary", "save", "saverSave", "load") and op["slot"] not in real.models:
         return False
-    if t in ("constructFrom", "writeModule") and op["mslot"] not in real.modules:
+    if t in ("constructFrom", "writeModule", "initModule") and op["mslot"] not in real.modules:
+        return False
+    if t in ("construct", "constructFrom") and isinstance(op.get("ud"), dict) and op["ud"]["ref"] not in real.uds:
         return False
     if t == "write" and op["net"] not in real.models[op["slot"]].networks:
         return False
@@ -427,6 +499,13 @@ def admissible(real, op):
         md = dict(op["items"])
     if md is not None and "unitary_dict" in md:
         if "unitary_dict" not in real.models[op["slot"]].__dict__ or (t == "saverSave" and op["metadataOnly"]):
+            return False
+    if t == "train" and op.get("bases"):
+        # a ComplexWaveFunction whose parameters are ALL exactly zero (only reachable through a zero_weights=True module) is the uniform
+        # real state: an X-basis outcome "1" then has probability exactly 0, its log-likelihood gradient is 0/0 and `fit` fills the
+        # parameters with NaN (a later Gibbs step raises RuntimeError). Training from that point is outside the domain of the property.
+        st = real.models[op["slot"]]
+        if isinstance(st, ComplexWaveFunction) and all(bool(torch.all(p == 0)) for n in st.networks for p in getattr(st, n).parameters()):
             return False
     if t == "constructFrom":
         mod = real.modules[op["mslot"]]
@@ -454,10 +533,12 @@ def run_history(ctx, case, drv_op, hooks, level_fn):
                 ctx.oracle("property oracle could not be evaluated on the implementation's result", False,
                            {"plan": case["plan"], "tseed": case["tseed"], "op": op}, detail={"exception": repr(e)[:300]},
                            sig=f"{op['t']}/oracle-crash")
+            ctx.count(f"op={op['t']}")
+            if mop is None:  # harness-only operation (the caller creating one of his own objects): no model step
+                continue
             mops.append(mop)
             kept.append(op)
             obs.append((err, w))
-            ctx.count(f"op={op['t']}")
             ctx.count(f"err={err}")
         if ctx.driver is not None and mops:
             res = ctx.driver.call(drv_op, ops=mops)
